@@ -113,7 +113,7 @@ def run_case(c, ci):
                 return res
             res["sites"] = sorted(set(emit_sites(out)))
             if c.get("export"):
-                s_txt, o_txt, ns, no = rw.export_pair(out, pristine)
+                s_txt, o_txt, ns, no = rw.export_pair(out, pristine, c.get("_interner"))
                 res["src_tree"], res["out_tree"], res["src_nodes"], res["out_nodes"] = s_txt, o_txt, ns, no
             try:
                 code = compile(out, fname, "exec")
@@ -152,4 +152,5 @@ def main():
     print("@@" + json.dumps(out))
 
 
-main()
+if __name__ == "__main__":
+    main()
